@@ -500,3 +500,18 @@ Proof.
   induction pages as [|[ts nx] pages IH]; intros last H; cbn; [now rewrite app_nil_r|].
   inversion H; subst. cbn in H2. subst nx. rewrite IH by assumption. now rewrite app_assoc.
 Qed.
+
+(* the lookup the client does (exact ref.name first, then the "<anything>:tag" fallback) answers with the exact
+   entry whenever there is one - in ANY index, also a foreign one that holds full image names *)
+Lemma get_tag_exact_first idx t d : t <> "" -> resolve idx t = Some d -> index_get_tag idx t = Some d.
+Proof.
+  intros Ht. unfold resolve, index_get_tag.
+  assert (E : find (fun e => negb (e_name e =? "") && (e_name e =? t)) idx = find (named t) idx).
+  { induction idx as [|e l IH]; [reflexivity|]. cbn [find]. unfold named at 1.
+    destruct (e_name e =? t) eqn:Et.
+    - apply String.eqb_eq in Et. rewrite Et. rewrite (eqb_neq' _ _ Ht). reflexivity.
+    - rewrite andb_false_r. exact IH. }
+  rewrite E. destruct (find (named t) idx); [tauto|discriminate].
+Qed.
+Lemma push_then_get idx t d : t <> "" -> index_get_tag (index_set idx t d) t = Some d.
+Proof. intros Ht. apply get_tag_exact_first; [exact Ht|]. now destruct (index_set_spec idx t d Ht) as (H1 & _). Qed.
